@@ -188,6 +188,7 @@ cleanup_pthread:
 	pthread_join(logt_thread_id, NULL);
 
 	wthread_active = QB_FALSE;
+	wthread_should_exit = QB_FALSE;
 	wthread_lock = logt_wthread_lock;
 	logt_wthread_lock = NULL;
 	(void)qb_thread_lock_destroy(wthread_lock);
